@@ -20,7 +20,8 @@
        when its cost is strictly smaller, or when both costs are +infinity;
      before every iteration: stop if the solver's `terminate` says so, or iter >= max_iters   (target cost is -infinity);
      the result is the recorded best parameter.
-   NaN costs are not modelled (a NaN reflection cost makes argmin return Err and nelder_mead_1d panic: property C17).
+   NaN costs: the binary64 instance below follows Cost1d::cost as translated (a NaN cost is +infinity since /repo d569966; before
+   that it reached the solver, which then fails: `nm_defined`).  The generic model and its theorems are about orders without NaN.
 
    The model is generic in the point type P, the finite-cost type K with a strict order [klt], the five point operations
    (so the theorems also hold for the rounded binary64 operations), the cost function and the termination test. *)
@@ -117,6 +118,7 @@ Arguments CInf {K}.
 (* ------------------------------------------------------------------------------------------------ binary64 instance *)
 (* Coq's primitive binary64 floats: the same IEEE operations the implementation executes (argmin-math: f64 add/sub/mul). *)
 From Coq Require Import Floats.
+From SpdVerif Require Import Gen.AutoCalc.
 
 Definition float_ops : @ops float :=
   mkOps (fun p => p * 1)%float
@@ -125,15 +127,18 @@ Definition float_ops : @ops float :=
         (fun x0 x => x0 + (x - x0) * 0.5)%float
         (fun b p => b + (p - b) * 0.5)%float.
 
-(* an f64 cost as a model cost: f64::INFINITY is the model's +infinity, and so is a NaN cost
-   (Cost1d::cost since /repo d569966: `if cost.is_nan() { Ok(INFINITY) }`; before it a NaN cost made argmin fail) *)
+(* an f64 cost as a model cost.  f64::INFINITY is the model's +infinity.  A NaN cost: Gen/AutoCalc.v reads off Cost1d::cost
+   whether it is turned into INFINITY (`if cost.is_nan() { Ok(INFINITY) }`, /repo d569966: nm_nan_cost_is_infinite = true) or
+   handed to the solver as it is (before: the NaN then reaches the comparisons, argmin answers `Reached unreachable point` when
+   a reflection cost is NaN and nelder_mead_1d panics — the model keeps the NaN as a finite cost and `nm_defined` says so) *)
 Definition fcost (c : float) : @ecost float :=
-  if (PrimFloat.eqb c infinity || negb (PrimFloat.eqb c c))%bool then CInf else CFin c.
+  if PrimFloat.eqb c infinity then CInf
+  else if (nm_nan_cost_is_infinite && negb (PrimFloat.eqb c c))%bool then CInf
+  else CFin c.
 
-(* Cost1d::cost: `if !(x >= min && x <= max) { INFINITY } else { func(x) }` — a NaN point is out of bounds
-   (for every other point the same as the earlier `x > max || x < min`) *)
+(* Cost1d::cost: outside the bounds the cost is INFINITY; the bounds test is the generated one (binary64 comparisons) *)
 Definition bounded (lo hi : float) (g : float -> float) (x : float) : @ecost float :=
-  if (PrimFloat.leb lo x && PrimFloat.leb x hi)%bool then fcost (g x) else CInf.
+  if nm_out_of_bounds_float x lo hi then CInf else fcost (g x).
 
 (* NelderMead::terminate, n = 2:  c0 = (ca + cb) / n;  s = sqrt(1/(n-1) * ((ca - c0)^2 + (cb - c0)^2));  s < sd_tolerance.
    An infinite cost makes s NaN: not terminated. *)
@@ -161,7 +166,16 @@ Fixpoint tree_lookup (t : ftree) (x : float) : float :=
       end
   end.
 
-Definition in_bounds (lo hi x : float) : bool := (PrimFloat.leb lo x && PrimFloat.leb x hi)%bool.
+Definition in_bounds (lo hi x : float) : bool := negb (nm_out_of_bounds_float x lo hi).
+
+(* no NaN reached the solver: every cost it was given is +infinity or a number *)
+Definition cost_is_nan (a : @ecost float) : bool := match a with CFin c => negb (PrimFloat.eqb c c) | CInf => false end.
+
+(* does the run stay defined?  false when a NaN cost was handed to the solver at one of the evaluated points (only possible when
+   nm_nan_cost_is_infinite = false): argmin's comparisons with NaN are all false and nelder_mead_1d panics or returns garbage *)
+Definition nm_defined (g : float -> float) (g0 g1 : float) (max_iter : nat) (lo hi tol : float) : bool :=
+  let s := nm_run PrimFloat.ltb float_ops (bounded lo hi g) (sd_small_float tol) g0 g1 max_iter in
+  negb (existsb (fun x => cost_is_nan (bounded lo hi g x)) (strace s)).
 
 (* nelder_mead_1d in binary64: result and the in-bounds evaluations in order *)
 Definition nm_float (g : float -> float) (g0 g1 : float) (max_iter : nat) (lo hi tol : float) : float * list float :=
@@ -177,7 +191,9 @@ Definition toy (kind : nat) (a b h : float) (x : float) : float :=
   | 3%nat => let u := abs (x - a) in let v := abs (x - b) + h in if PrimFloat.ltb u v then u else v
   | 4%nat => h
   | 5%nat => if PrimFloat.ltb x a then 1 else 0
-  | _ => let u := abs (x - a) in let v := 2 * abs (x - b) in if PrimFloat.ltb v u then u else v
+  | 6%nat => let u := abs (x - a) in let v := 2 * abs (x - b) in if PrimFloat.ltb v u then u else v
+  | _ => (* undefined (NaN) on the open interval (a, a + 2), |x - b| elsewhere *)
+         if (PrimFloat.ltb a x && PrimFloat.ltb x (a + 2))%bool then nan else abs (x - b)
   end%float.
 
 (* ------------------------------------------------------------------------------------------------ exact instance over Q *)
